@@ -239,7 +239,7 @@ pub fn classify_index_deviation(base_sig: &str, got: &BTreeSet<i64>, exp: &BTree
         }
     }
     if cx.stable_row_ids && cx.deferred_compaction {
-        // index coverage is corrupt after this combination (see DEFER_REMAP_SIG)
+        // the fragment-reuse index is applied to stable row ids as if they were addresses
         return vec![DEFER_REMAP_SIG.into()];
     }
     let mut sigs = vec![];
@@ -298,7 +298,7 @@ pub fn classify_index_deviation(base_sig: &str, got: &BTreeSet<i64>, exp: &BTree
     }
     // (5) stable row ids: mask_to_offset_ranges miscounts offsets of RangeWithBitmap segments
     //     (silent variant of ROWIDS_PANIC_SIG): as many wrong rows as missing ones.
-    if !extra_done && !missing_done && cx.stable_row_ids && cx.compact_after_delete && extra.len() == missing.len() {
+    if (!extra_done || base_sig.contains("duplicate-row")) && !missing_done && cx.stable_row_ids && cx.compact_after_delete {
         sigs.push("stable-row-ids-index-hits-read-at-wrong-offsets-after-delete-and-compaction".into());
         extra_done = true;
         missing_done = true;
@@ -311,7 +311,7 @@ pub fn classify_index_deviation(base_sig: &str, got: &BTreeSet<i64>, exp: &BTree
 
 /// stable row ids + compact_files(defer_index_remap = true): fragment ids are not reserved before
 /// the index bitmaps / fragment-reuse index are built => corrupt coverage, load_indices panics.
-pub const DEFER_REMAP_SIG: &str = "stable-row-ids-deferred-remap-compaction-corrupts-index-fragment-bitmaps";
+pub const DEFER_REMAP_SIG: &str = "stable-row-ids-deferred-remap-compaction-index-returns-wrong-rows";
 pub fn is_defer_remap_panic(e: &str) -> bool {
     e.contains("split of indexed and non-indexed data")
 }
@@ -373,10 +373,7 @@ pub fn run(args: &Args) -> i32 {
                 ],
             };
             let mut version = *rng.pick(&[LanceFileVersion::V2_0, LanceFileVersion::V2_1]);
-            if xty == ColTy::ListI32 && rng.chance(3, 4) {
-                // v2.1 currently panics on some nullable list columns (side finding); keep most list tables on 2.0
-                version = LanceFileVersion::V2_0;
-            }
+            let _ = &mut version;
             let nfrag = rng.urange(1, 3);
             let total = rng.urange(20, max_rows);
             let mut ids = IdAlloc::new(0);
